@@ -380,6 +380,8 @@ func runC20(w *core.W) {
 	selfOps := []HOp{
 		{Op: "setthis", Map: 0}, {Op: "setthis", Map: 1}, {Op: "setthis", Map: -1}, {Op: "setvalue", Key: "x", Val: mvp(mvInt(2))},
 		{Op: "resolve", Src: "($s = this, 1)"}, {Op: "resolve", Src: "[$s.x, $s.$a, $s.$s.x, $s.nothere]"}, {Op: "resolve", Src: "$a = x + 1"}, {Op: "resolve", Src: "$s = 5"}, {Op: "resolve", Src: "[$s!.x]"},
+		// entries whose key contains a dot are entries, not paths
+		{Op: "setvalue", Key: "u.k", Val: mvp(mvInt(5))}, {Op: "resolve", Src: "[u.k, nope.x, this.x, $s.x]"},
 	}
 	smax := w.Pick(4, 5)
 	for n := 2; n <= smax; n++ {
@@ -394,7 +396,7 @@ func runC20(w *core.W) {
 			hasSelf := false
 			for j := n - 1; j >= 0; j-- {
 				h.Ops[j] = selfOps[k%len(selfOps)]
-				hasSelf = hasSelf || k%len(selfOps) == 4
+				hasSelf = hasSelf || k%len(selfOps) == 4 || k%len(selfOps) == 9
 				k /= len(selfOps)
 			}
 			if hasSelf {
